@@ -139,7 +139,9 @@ def check_nodes(nodes, T, col, case, label):
                 viol("3-members-precede", f"node #{i} {n.type!r} has member {c!r} with no earlier node for it; sequence: {[x.type for x in nodes]!r}"[:600])
                 break
     # 4/5 deferred nodes
-    plain_types = [m.type for m in nodes if not is_deferred(m)] + [py_unwrap(m.type) for m in nodes if not is_deferred(m)]
+    # a type "has a node of its own" if some node not flagged cyclic carries it (a string-valued
+    # alias counts: its single node is deferred but it is the alias's own node)
+    plain_types = [m.type for m in nodes if not m.cyclic] + [py_unwrap(m.type) for m in nodes if not is_deferred(m)]
     for i, n in enumerate(nodes):
         if isinstance(n.type, FR) and not n.cyclic:
             viol("4-forwardref-is-cyclic", f"node #{i} {n!r} is a forward reference but not flagged cyclic")
@@ -150,7 +152,8 @@ def check_nodes(nodes, T, col, case, label):
                 continue
             if not any(d == c or d == py_unwrap(c) for c in [*all_members, T]):
                 viol("5-deferred-denotes-member", f"node #{i} {n!r} denotes {d!r}, which is no member type of the graph {all_members!r}"[:500])
-            if not any(d == p for p in plain_types) and not (d == T or d == py_unwrap(T)):
+            ud = py_unwrap(d)
+            if not any(d == p or ud == p for p in plain_types) and not (d == T or d == py_unwrap(T) or ud == py_unwrap(T)):
                 viol("4-cyclic-is-revisit", f"node #{i} {n!r} is flagged cyclic but {d!r} has no node of its own and is not the root")
     # 6 string aliases
     for i, n in enumerate(nodes):
